@@ -391,6 +391,69 @@ Proof.
   split; [|split; ring]. unfold addon_energy. induction e; simpl; constructor; auto. ring.
 Qed.
 
+(* ... on the cash-flow model of EconomicsAddOns.Calculate itself: an add-on whose CAPEX, OPEX, electricity gain, heat gain
+   and profit are all zero has an all-zero revenue and cash-flow series, and the project cash flow with the add-on is,
+   year by year, the project cash flow without it (every end-use, any number of construction years, any lifetime) *)
+Definition base_project_cashflow (a : addon_in) : list Q :=
+  repeat (- (1) * (a_ccap a / natQ (a_cy a))) (a_cy a) ++ project_ops a.
+Definition allzero (l : list Q) : Prop := Forall (fun x => x == 0) l.
+
+Lemma map2_Forall {A B C} (f : A -> B -> C) (P : C -> Prop) (Q1 : A -> Prop) (Q2 : B -> Prop) :
+  (forall x y, Q1 x -> Q2 y -> P (f x y)) -> forall a b, Forall Q1 a -> Forall Q2 b -> Forall P (map2 f a b).
+Proof.
+  intros Hf a b Ha. revert b. induction Ha as [|x a Hx Ha IH]; intros b Hb; [constructor|].
+  destruct Hb as [|y b Hy Hb]; simpl; constructor; auto.
+Qed.
+Lemma Forall_map_all {A B} (g : A -> B) (P : B -> Prop) : (forall x, P (g x)) -> forall l, Forall P (map g l).
+Proof. intros Hg l. induction l; simpl; constructor; auto. Qed.
+Lemma zero_plus_series : forall l z, allzero z -> (length l <= length z)%nat -> Forall2 Qeq (map2 Qplus z l) l.
+Proof.
+  induction l as [|x l IH]; intros z Hz Hlen.
+  - destruct z; constructor.
+  - destruct Hz as [|u z Hu Hz]; simpl in Hlen; [lia|]. simpl. constructor; [rewrite Hu; ring | apply IH; [assumption | lia]].
+Qed.
+Lemma repeat_F2eq (x y : Q) : x == y -> forall n, Forall2 Qeq (repeat x n) (repeat y n).
+Proof. intros H n. induction n; simpl; constructor; assumption. Qed.
+Lemma F2eq_refl : forall l : list Q, Forall2 Qeq l l.
+Proof. induction l; constructor; auto. reflexivity. Qed.
+
+Lemma zero_addon_revenue a : a_opex a == 0 -> a_egain a == 0 -> a_hgain a == 0 -> a_profit a == 0 ->
+  allzero (addon_revenue a).
+Proof.
+  intros Ho He Hh Hp. unfold allzero, addon_revenue.
+  apply (map2_Forall _ _ (fun x => x == 0) (fun x => x == 0)).
+  - intros x y Hx Hy. rewrite Hx, Hy, Ho, Hp. ring.
+  - unfold addon_elec_revenue. apply Forall_map_all. intros p.
+    destruct (sells_elec (a_kind a)); [rewrite He|]; unfold Qdiv; ring.
+  - unfold addon_heat_revenue. apply Forall_map_all. intros p.
+    destruct (sells_heat (a_kind a)); [rewrite Hh|]; unfold Qdiv; ring.
+Qed.
+
+Lemma addon_revenue_covers_project a : (length (project_ops a) <= length (addon_revenue a))%nat.
+Proof.
+  unfold project_ops, addon_revenue, addon_elec_revenue, addon_heat_revenue.
+  rewrite !map2_length, !map_length.
+  destruct (sells_elec (a_kind a)), (sells_heat (a_kind a)); rewrite ?map_length; lia.
+Qed.
+
+Theorem zero_addon_cashflow_is_zero a : a_capex a == 0 -> a_opex a == 0 -> a_egain a == 0 -> a_hgain a == 0 ->
+  a_profit a == 0 -> allzero (addon_cashflow a).
+Proof.
+  intros Hc Ho He Hh Hp. unfold allzero, addon_cashflow. apply Forall_app. split.
+  - assert (Hz : - (1) * (a_capex a / natQ (a_cy a)) == 0) by (rewrite Hc; unfold Qdiv; ring).
+    revert Hz. generalize (- (1) * (a_capex a / natQ (a_cy a))). intros v Hz.
+    induction (a_cy a); simpl; constructor; assumption.
+  - now apply zero_addon_revenue.
+Qed.
+
+Theorem zero_addon_project_cashflow a : a_capex a == 0 -> a_opex a == 0 -> a_egain a == 0 -> a_hgain a == 0 ->
+  a_profit a == 0 -> Forall2 Qeq (addon_project_cashflow a) (base_project_cashflow a).
+Proof.
+  intros Hc Ho He Hh Hp. unfold addon_project_cashflow, base_project_cashflow. apply Forall2_app.
+  - apply repeat_F2eq. rewrite Hc. unfold Qdiv. ring.
+  - apply zero_plus_series; [now apply zero_addon_revenue | apply addon_revenue_covers_project].
+Qed.
+
 (* homogeneity of the code's own (vector) computation, through C01 *)
 Lemma teq_sym a b : teq a b -> teq b a.
 Proof. unfold teq. intros (H1 & H2 & H3). repeat split; symmetry; assumption. Qed.
